@@ -8,6 +8,9 @@ import (
 	"fmt"
 	"math/rand"
 	"strings"
+	"sync"
+
+	"github.com/wokdav/gopki/generator/config"
 )
 
 func init() {
@@ -548,6 +551,9 @@ func streamCert(focus string) {
 		n = 1500
 	}
 	exhaustiveCert(g)
+	if focus == "c16" {
+		concurrentAdmissions(g)
+	}
 	for i := 0; i < n; i++ {
 		ents, profs := g.hierarchy(i)
 		runHierarchy(fmt.Sprintf("%s-%d-%d", focus, seed, i), ents, profs)
@@ -557,4 +563,87 @@ func streamCert(focus string) {
 			apiMode = false
 		}
 	}
+}
+
+// The admission encoder under concurrent use of the library (several certificates built at once in one process): every
+// extension built while others are being built is byte for byte the extension the same configuration yields when built alone.
+func concurrentAdmissions(g *gen) {
+	build := func(text string) (string, error) {
+		v, err := config.ParseConfig(strings.NewReader(text))
+		if err != nil {
+			return "", err
+		}
+		cc, ok := v.(*config.CertificateContent)
+		if !ok {
+			return "", fmt.Errorf("not a certificate configuration")
+		}
+		var sb strings.Builder
+		for _, x := range cc.Extensions {
+			b, err := x.Builder()
+			if err != nil {
+				return "", err
+			}
+			e, err := b.Compile(nil)
+			if err != nil {
+				return "", err
+			}
+			fmt.Fprintf(&sb, "%v|%v|%x;", e.Id, e.Critical, e.Value)
+		}
+		return sb.String(), nil
+	}
+	var texts, want []string
+	for len(texts) < 16 {
+		e := g.ext("adm")
+		if !e.HasContent {
+			continue
+		}
+		c := Cfg{Subject: "CN=concurrent", Exts: []Ext{e}}
+		t := yamlOf(c.tree())
+		w, err := build(t)
+		if err != nil {
+			continue // (string-type violations and the like: not what this part is about)
+		}
+		texts, want = append(texts, t), append(want, w)
+	}
+	rounds := 250
+	if thorough() {
+		rounds = 4000
+	}
+	var mu sync.Mutex
+	wrong, total, first := 0, 0, ""
+	var wg sync.WaitGroup
+	for w := 0; w < 16; w++ {
+		wg.Add(1)
+		go func(w int) {
+			defer wg.Done()
+			defer func() {
+				if r := recover(); r != nil {
+					mu.Lock()
+					wrong++
+					if first == "" {
+						first = fmt.Sprint("panic: ", r)
+					}
+					mu.Unlock()
+				}
+			}()
+			for r := 0; r < rounds; r++ {
+				i := (w + r) % len(texts)
+				got, err := build(texts[i])
+				mu.Lock()
+				total++
+				if err != nil || got != want[i] {
+					wrong++
+					if first == "" {
+						first = fmt.Sprintf("configuration %d: %v", i, err)
+					}
+				}
+				mu.Unlock()
+			}
+		}(w)
+	}
+	wg.Wait()
+	if wrong > 0 {
+		fmt.Fprintf(out, "SELFFAIL c16-concurrent: %d of %d admission extensions built while others were being built differ from the same extension built alone (first: %s)\n", wrong, total, first)
+	}
+	fmt.Fprintf(out, "NOTE c16-concurrent: %d admission extensions built in 16 goroutines, %d differ\n", total, wrong)
 }
